@@ -12,7 +12,9 @@
    *x509.Certificate the caller handed to CertificateFromX509 -- the two are
    independent labels here, as they are in Go.
    The clock is an input: initConfiguration reads time.Now() once (`now`);
-   SetConfiguration never reads it.  stun.ParseURI is abstracted to the class of
+   SetConfiguration never reads it.  After the fix the certificate block of
+   SetConfiguration only compares: the stored certificate objects are never
+   replaced.  stun.ParseURI is abstracted to the class of
    each URL.  No proofs here. *)
 From Coq Require Import List Bool String NArith ZArith.
 Import ListNotations.
@@ -201,7 +203,7 @@ Definition sc_certs_by (eq : cert -> cert -> bool) (c new : config) : config * r
       if negb (Nat.eqb (List.length (certs new)) (List.length (certs c)))
       then (c, Err E_modification)
       else match certs_equal_by eq (certs c) (certs new) with
-           | Ok true => (with_certs c (certs new), Ok tt)
+           | Ok true => (c, Ok tt)      (* nothing assigned: the stored objects stay *)
            | Ok false => (c, Err E_modification)
            | Err e => (c, Err e)
            | Panic => (c, Panic)
@@ -304,27 +306,3 @@ Definition servers_valid (l : list server) : bool := forallb server_valid l.
 
 (* what Certificate.Equals can see of a certificate *)
 Definition cert_id (c : cert) : keytype * Z * Z := (c_ktype c, c_key c, c_x509 c).
-
-(* the certificate block of SetConfiguration stores the ARGUMENT's list once
-   it compared equal: "pc.configuration.Certificates = configuration.Certificates" *)
-Definition adopt_certs (cur new : config) : config :=
-  match certs new with [] => cur | l => with_certs cur l end.
-
-(* position by position, a named certificate with the stored one's x509
-   identity also reports the stored one's expiry.  True of every pair of
-   certificates that came out of x509.ParseCertificate (NotAfter is part of the
-   DER bytes); false for CertificateFromX509(key, &copy) where copy is a parsed
-   certificate whose NotAfter field was overwritten. *)
-Definition expiry_agrees (cur new : list cert) : bool :=
-  forallb (fun p => implb (Z.eqb (c_x509 (fst p)) (c_x509 (snd p)))
-                          (Z.eqb (c_expires (fst p)) (c_expires (snd p))))
-          (combine cur new).
-
-(* the same for a whole history: expiry is a function of the x509 identity *)
-Definition expiry_from (f : Z -> Z) (l : list cert) : Prop :=
-  forall c, In c l -> c_expires c = f (c_x509 c).
-
-(* a configuration with the expiry of its certificates forgotten *)
-Definition forget_expiry (c : config) : config :=
-  with_certs c (map (fun x => {| c_ktype := c_ktype x; c_key := c_key x; c_x509 := c_x509 x;
-                                 c_expires := 0 |}) (certs c)).
